@@ -883,6 +883,10 @@ void MEDDLY::forest::createReducedNode(unpacked_node *un, edge_value &ev,
     //
     unique->add(un->hash(), node);
 
+#ifdef MEDDLY_VERIF
+    if (the_verif_tracer) the_verif_tracer->newNode(FID(), node);
+#endif
+
 #ifdef DEBUG_CREATE_REDUCED
     out << "    ===> New node " << node << "\n\t";
     showNode(out, node, SHOW_DETAILS | SHOW_INDEX);
@@ -967,6 +971,10 @@ void MEDDLY::forest::deleteNode(node_handle p)
     nodeMan->unlinkDownAndRecycle(getNodeAddress(p));
     setNodeAddress(p, 0);
     nodeHeaders.deactivate(p);
+
+#ifdef MEDDLY_VERIF
+    if (the_verif_tracer) the_verif_tracer->delNode(FID(), p);
+#endif
 
     // if (nodeMan.compactLevel) nodeMan.compact(false);
 
@@ -1547,6 +1555,19 @@ unsigned MEDDLY::forest::countRegisteredEdges() const
     }
     return count;
 }
+
+#ifdef MEDDLY_VERIF
+MEDDLY::verif_tracer* MEDDLY::the_verif_tracer = nullptr;
+
+void MEDDLY::forest::verifRoots(
+        std::vector< std::pair<node_handle, edge_value> > &R) const
+{
+    R.clear();
+    for (const dd_edge* r = roots; r; r=r->next) {
+        R.push_back(std::make_pair(r->node, r->edgeval));
+    }
+}
+#endif
 
 void MEDDLY::forest::markAllRoots()
 {
